@@ -471,10 +471,50 @@ func effectful(b *ssa.BasicBlock) bool {
 }
 
 // armSets: the distinct proper sets of the effectful blocks of the tree, sorted by size then content.
+// pureHelper: g only computes a value from its arguments - every call goes to a formatting / conversion function of
+// the standard library (or a builtin), nothing is stored outside its own locals, nothing is deferred, sent or
+// started. A code-to-name function for log lines is of this kind: its branches are not arms of the dispatch.
+func pureHelper(g *ssa.Function) bool {
+	if g.Parent() != nil || len(g.Blocks) == 0 {
+		return false
+	}
+	for _, b := range g.Blocks {
+		for _, ins := range b.Instrs {
+			switch x := ins.(type) {
+			case *ssa.Go, *ssa.Defer, *ssa.Send, *ssa.MapUpdate, *ssa.Panic, *ssa.RunDefers:
+				return false
+			case *ssa.Store:
+				if _, isAlloc := x.Addr.(*ssa.Alloc); !isAlloc {
+					if ia, isIA := x.Addr.(*ssa.IndexAddr); isIA {
+						if _, isAlloc := ia.X.(*ssa.Alloc); isAlloc {
+							continue // an element of a local array (variadic arguments)
+						}
+					}
+					return false
+				}
+			case *ssa.Call:
+				if x.Call.IsInvoke() {
+					return false
+				}
+				n := calleeName(x)
+				okCall := strings.HasPrefix(n, "builtin:") || strings.HasPrefix(n, "strconv.") || strings.HasPrefix(n, "strings.") || strings.HasPrefix(n, "bytes.") ||
+					n == "fmt.Sprintf" || n == "fmt.Sprint" || strings.HasPrefix(n, "encoding/hex.") || strings.HasPrefix(n, "unicode")
+				if !okCall {
+					return false
+				}
+			}
+		}
+	}
+	return true
+}
+
 func (bf *byteFlow) armSets() []bset {
 	seen := map[bset]bool{}
 	var out []bset
 	for _, g := range bf.w.Tree(bf.root) {
+		if g != bf.root && pureHelper(g) {
+			continue
+		}
 		for _, b := range g.Blocks {
 			s := bf.in[b]
 			if !bf.known[b] || s.empty() || s.full() || seen[s] || !effectful(b) {
